@@ -36,8 +36,53 @@ struct V
     formats: Vec<(String, String)>,       // (enclosing fn, literal)
     assigns: Vec<(String, String, String)>, // (enclosing fn, variable, literal)
     registers: Vec<String>,
+    sig_loops: Vec<(String, Vec<String>)>, // `for v in [SIGTERM, SIGINT]` bindings in scope
     lock_fields: Vec<(String, String)>,   // fields of struct Cache: (name, type)
     lock_struct_attrs: Vec<String>,       // serde attributes on struct Cache or its fields
+}
+
+/// a signal name or number, without refusing: None when the expression is something else
+fn signal_value(e: &syn::Expr) -> Option<String>
+{
+    match e
+    {
+        syn::Expr::Path(p) =>
+        {
+            let name = p.path.segments.last().unwrap().ident.to_string();
+            match name.as_str()
+            {
+                "SIGHUP" | "SIGINT" | "SIGQUIT" | "SIGABRT" | "SIGUSR1" | "SIGUSR2" | "SIGPIPE" | "SIGALRM"
+                | "SIGTERM" => Some(signal_expr(e)),
+                _ => None,
+            }
+        },
+        syn::Expr::Reference(r) => signal_value(&r.expr),
+        syn::Expr::Unary(u) if matches!(u.op, syn::UnOp::Deref(_)) => signal_value(&u.expr),
+        syn::Expr::Binary(_) | syn::Expr::Paren(_) | syn::Expr::Lit(_) => Some(signal_expr(e)),
+        _ => None,
+    }
+}
+
+/// the elements of `[a, b]`, `&[a, b]`, `[a, b].iter()`, `[a, b].into_iter()`, `vec![a, b]` when all are signals
+fn signal_list(e: &syn::Expr) -> Option<Vec<String>>
+{
+    match e
+    {
+        syn::Expr::Array(a) => a.elems.iter().map(signal_value).collect(),
+        syn::Expr::Reference(r) => signal_list(&r.expr),
+        syn::Expr::Paren(p) => signal_list(&p.expr),
+        syn::Expr::MethodCall(m) if m.method == "iter" || m.method == "into_iter" || m.method == "copied" || m.method == "cloned" =>
+        {
+            signal_list(&m.receiver)
+        },
+        syn::Expr::Macro(m) if m.mac.path.is_ident("vec") =>
+        {
+            use syn::parse::Parser;
+            let parser = syn::punctuated::Punctuated::<syn::Expr, syn::Token![,]>::parse_terminated;
+            parser.parse2(m.mac.tokens.clone()).ok()?.iter().map(signal_value).collect()
+        },
+        _ => None,
+    }
 }
 
 fn signal_expr(e: &syn::Expr) -> String
@@ -373,17 +418,60 @@ impl<'ast> Visit<'ast> for V
         syn::visit::visit_expr_assign(self, a);
     }
 
+    fn visit_expr_for_loop(&mut self, f: &'ast syn::ExprForLoop)
+    {
+        let mut bound = false;
+        if let syn::Pat::Ident(pi) = &*f.pat
+        {
+            if let Some(list) = signal_list(&f.expr)
+            {
+                self.sig_loops.push((pi.ident.to_string(), list));
+                bound = true;
+            }
+        }
+        syn::visit::visit_expr_for_loop(self, f);
+        if bound
+        {
+            self.sig_loops.pop();
+        }
+    }
+
     fn visit_expr_call(&mut self, c: &'ast syn::ExprCall)
     {
         if let syn::Expr::Path(p) = &*c.func
         {
             let segs: Vec<String> = p.path.segments.iter().map(|s| s.ident.to_string()).collect();
-            if segs.len() >= 2
-                && segs[segs.len() - 1] == "register"
-                && segs[segs.len() - 2] == "flag"
-                && !c.args.is_empty()
+            let qualified = segs.len() >= 2 && segs[segs.len() - 1] == "register" && segs[segs.len() - 2] == "flag";
+            // `use signal_hook::flag::register; register(sig, flag)`: only when the first argument is a signal
+            let bare = segs.len() == 1 && segs[0] == "register" && c.args.len() >= 2;
+            if (qualified || bare) && !c.args.is_empty()
             {
-                self.registers.push(signal_expr(&c.args[0]));
+                let mut arg = &c.args[0];
+                while let syn::Expr::Unary(u) = arg
+                {
+                    arg = &u.expr;
+                }
+                let looped = match arg
+                {
+                    syn::Expr::Path(ap) => ap
+                        .path
+                        .get_ident()
+                        .and_then(|id| self.sig_loops.iter().rev().find(|b| id == &b.0))
+                        .map(|b| b.1.clone()),
+                    _ => None,
+                };
+                if let Some(list) = looped
+                {
+                    self.registers.extend(list);
+                }
+                else if let Some(v) = signal_value(&c.args[0])
+                {
+                    self.registers.push(v);
+                }
+                else if qualified
+                {
+                    self.registers.push(signal_expr(&c.args[0]));
+                }
             }
         }
         syn::visit::visit_expr_call(self, c);
